@@ -113,7 +113,11 @@ func (l *Lexer) readLeadingComments() {
 				l.hadNewlineBefore = true
 				l.ReadChar()
 			}
-			l.leadingComments = append(l.leadingComments, strings.TrimRight(comment.String(), " "))
+			text := strings.TrimRight(comment.String(), " ")
+			if text == "" {
+				text = " " // the empty string stands for a blank line: an empty comment stays a comment
+			}
+			l.leadingComments = append(l.leadingComments, text)
 		}
 
 		if !isWhitespace(l.CurrentChar) {
